@@ -36,3 +36,114 @@ Example C02_nonvacuous :
                   (Some [[(0,6);(1,2)]; [(0,3);(1,5)]; [(0,4);(1,4)]]%Z) (Some [(0,2);(1,2)]%Z) in
   dev_aligned d /\ exists c, carve cf d = Kept c.
 Proof. split; [reflexivity|]. eexists. vm_compute. reflexivity. Qed.
+
+(* ------------------------------------------------------------------------------------------------
+   Dev robustness and EXACT ties of target rates.  The code accepts a grouping only if
+       train_rates.sort_values("target_rate").index == dev_rates.sort_values("target_rate").index
+   pandas (nargsort, na_position='last') arranges the positions of the non-missing rates with numpy's
+   argsort(kind='quicksort'), which is not stable, and appends the positions of the NaN rates in their
+   original order; the model ([rank_order]) is a stable insertion sort, NaN last.  The theorems below
+   justify the policy of CheckC01 ([has_tie], [no_strict_inversion], [rank_ambiguous], [tie_dependent]):
+   a disagreement is excused only when some candidate carries an exact tie.
+   [pandas_order rs l]: l is a possible result of the sort of the rates rs, for ANY sorting algorithm
+   (some arrangement of the non-NaN positions with consecutive rates in [fleb] order, then the NaN
+   positions in increasing order). *)
+From Coq Require Import Permutation Sorted SpecFloat.
+From AC.Proofs Require Import RankTieProofs.
+
+(* 1. rates without NaN and without exact tie: ANY arrangement of all the positions in which consecutive
+      rates are in the float order is the model's order, whatever algorithm produced it *)
+Theorem C02_rank_order_is_sort_independent : forall (rs : list fl) (l : list nat),
+  forallb (fun r => negb (f_is_nan r)) rs = true -> has_tie rs = false ->
+  Permutation l (seq 0 (List.length rs)) ->
+  Sorted (fun i j => fleb (nth i rs S754_nan) (nth j rs S754_nan) = true) l ->
+  l = rank_order rs.
+Proof. exact rank_order_sort_independent. Qed.
+Print Assumptions C02_rank_order_is_sort_independent.
+
+(* 1'. the same with NaN rates (groups that are empty on dev), as pandas treats them *)
+Theorem C02_rank_order_is_sort_independent_with_nan : forall (rs : list fl) (l : list nat),
+  has_tie rs = false -> pandas_order rs l -> l = rank_order rs.
+Proof. exact pandas_order_tie_free. Qed.
+Print Assumptions C02_rank_order_is_sort_independent_with_nan.
+
+(* 1''. for ALL rates (ties included) the model's order is one of the possible results, and it is the
+      stable one: the only permutation of the positions strictly sorted by (rate with NaN last, position) *)
+Theorem C02_rank_order_is_the_stable_sort : forall (rs : list fl),
+  pandas_order rs (rank_order rs) /\
+  Permutation (rank_order rs) (seq 0 (List.length rs)) /\
+  StronglySorted (slt rs) (rank_order rs) /\
+  (forall l, Permutation l (seq 0 (List.length rs)) -> StronglySorted (slt rs) l -> l = rank_order rs).
+Proof. exact rank_order_stable_sort_spec. Qed.
+Print Assumptions C02_rank_order_is_the_stable_sort.
+
+(* 2. without ties nor NaN the model's rank test is exactly "no pair of groups is strictly inverted
+      between train and dev" *)
+Theorem C02_same_ranks_without_ties : forall (a b : list fl),
+  List.length a = List.length b ->
+  forallb (fun r => negb (f_is_nan r)) a = true -> forallb (fun r => negb (f_is_nan r)) b = true ->
+  has_tie a = false -> has_tie b = false ->
+  (same_ranks a b = true <-> no_strict_inversion a b = true).
+Proof. exact same_ranks_iff_no_inversion. Qed.
+Print Assumptions C02_same_ranks_without_ties.
+
+(* 2'. one direction needs no hypothesis at all: the rank test never passes over a strict inversion *)
+Theorem C02_same_ranks_excludes_strict_inversion : forall (a b : list fl),
+  same_ranks a b = true -> no_strict_inversion a b = true.
+Proof. exact same_ranks_no_inversion. Qed.
+Print Assumptions C02_same_ranks_excludes_strict_inversion.
+
+(* 3. a candidate that is not rank-ambiguous is decided: the viability verdict computed with ANY pair of
+      possible sort results ([viable_with]: frequencies, close rates, equality of the two orders) is the
+      model's [viable].  No hypothesis on NaN or on the sizes. *)
+Theorem C02_tie_free_candidates_are_decided :
+  forall (cf : cfg) (train d : list ymset) (c : grouping) (l_train l_dev : list nat),
+  rank_ambiguous cf train (Some d) c = false ->
+  pandas_order (map rate (rows_of train c)) l_train ->
+  pandas_order (map rate (rows_of d c)) l_dev ->
+  viable_with cf train d c l_train l_dev = viable cf train (Some d) c.
+Proof. exact tie_free_candidates_decided. Qed.
+Print Assumptions C02_tie_free_candidates_are_decided.
+
+(* 3'. and the hypothesis cannot be dropped: a rank-ambiguous candidate (train rates 1/4, 3/4, 1/2;
+      dev rates 2/4, 3/4, 3/6: groups 0 and 2 exactly tied on dev) for which two possible sort results
+      on dev give opposite verdicts.  This is the reason for verdict code 4. *)
+Theorem C02_tied_rates_make_the_rank_test_sort_dependent :
+  exists (cf : cfg) (train d : list ymset) (c : grouping) (l_train l_dev l_dev' : list nat),
+    rank_ambiguous cf train (Some d) c = true
+    /\ pandas_order (map rate (rows_of train c)) l_train
+    /\ pandas_order (map rate (rows_of d c)) l_dev
+    /\ pandas_order (map rate (rows_of d c)) l_dev'
+    /\ viable_with cf train d c l_train l_dev = true
+    /\ viable_with cf train d c l_train l_dev' = false.
+Proof. exact tied_rates_sort_dependent. Qed.
+Print Assumptions C02_tied_rates_make_the_rank_test_sort_dependent.
+
+(* the hypotheses of 1, 2 and 3 are satisfiable *)
+Example C02_rank_nonvacuous :
+  let a := map rate tie_train in            (* 1/4, 3/4, 1/2 *)
+  let b := map rate [[(0,5);(1,1)]; [(0,1);(1,3)]; [(0,3);(1,2)]]%Z in   (* 1/6, 3/4, 2/5 *)
+  (forallb (fun r => negb (f_is_nan r)) a = true /\ has_tie a = false
+   /\ Permutation [0; 2; 1]%nat (seq 0 (List.length a))
+   /\ Sorted (fun i j => fleb (nth i a S754_nan) (nth j a S754_nan) = true) [0; 2; 1]%nat
+   /\ rank_order a = [0; 2; 1]%nat)
+  /\ (List.length a = List.length b /\ forallb (fun r => negb (f_is_nan r)) b = true
+      /\ has_tie b = false /\ same_ranks a b = true)
+  /\ (let cf := mkCfg 3 (f_of_dyadic 1 (-4)) true Cramerv in
+      let train := [[(0,5);(1,3)]; [(0,2);(1,6)]; [(0,4);(1,4)]]%Z in
+      let d := [[(0,6);(1,2)]; [(0,3);(1,5)]; [(0,4);(1,4)]]%Z in
+      let c := [[0]; [1]; [2]]%nat in
+      rank_ambiguous cf train (Some d) c = false
+      /\ pandas_order (map rate (rows_of train c)) (rank_order (map rate (rows_of train c)))
+      /\ pandas_order (map rate (rows_of d c)) (rank_order (map rate (rows_of d c)))
+      /\ viable cf train (Some d) c = true).
+Proof.
+  split; [|split].
+  - split; [vm_compute; reflexivity|]. split; [vm_compute; reflexivity|].
+    split; [exact perm_021|]. split; [|vm_compute; reflexivity].
+    repeat first [apply Sorted_nil | apply Sorted_cons | apply HdRel_nil | apply HdRel_cons
+                 | (vm_compute; reflexivity)].
+  - repeat split; vm_compute; reflexivity.
+  - split; [vm_compute; reflexivity|]. split; [apply rank_order_is_pandas_order|].
+    split; [apply rank_order_is_pandas_order|vm_compute; reflexivity].
+Qed.
